@@ -475,3 +475,310 @@ Proof.
   - intros x y. assert (L : len (firstn (N.to_nat rl) src) = rl) by (rewrite llen_firstn; lia).
     now rewrite !packet_header_size_app' by exact L.
 Qed.
+
+(* ================================================================== 6. malformed input is an error *)
+(* generic lifting: an error of decode_packet on the frame is the error of the stream step *)
+Lemma step_frame_err mi mc npi fb rl src e :
+  rl <= len src -> decode_packet fb (firstn (N.to_nat rl) src) = Err e ->
+  dr_res (decode_step mi mc npi (Frame fb rl) src) = Err e.
+Proof.
+  intros H E. cbn [decode_step]. rewrite step_frame_eq. replace (len src <? rl) with false by lia.
+  rewrite E. reflexivity.
+Qed.
+
+(* the same from the header on: fixed header completely buffered, frame completely buffered *)
+Lemma step_header_frame_err mi mc npi fb rl vi rest e :
+  enc_vi rl = Some vi -> is_publish fb = false -> (mi = 0 \/ rl <= mi) -> rl <= len rest ->
+  decode_packet fb (firstn (N.to_nat rl) rest) = Err e ->
+  dr_res (decode_step mi mc npi FrameHeader (fb :: vi ++ rest)) = Err e.
+Proof.
+  intros He Hp Hm Hl E. cbn [decode_step]. rewrite (step_frame_header_enc _ _ _ _ _ _ _ He).
+  replace (negb (mi =? 0) && (mi <? rl)) with false by lia. rewrite Hp.
+  apply (step_frame_err mi mc npi fb rl rest e Hl E).
+Qed.
+
+(* the error stays put: state is still [Frame] and the frame bytes are gone from the buffer *)
+Lemma step_frame_err_state mi mc npi fb rl src e :
+  rl <= len src -> decode_packet fb (firstn (N.to_nat rl) src) = Err e ->
+  decode_step mi mc npi (Frame fb rl) src = (Err e, Frame fb rl, npi, skipn (N.to_nat rl) src).
+Proof.
+  intros H E. cbn [decode_step]. rewrite step_frame_eq. replace (len src <? rl) with false by lia.
+  rewrite E. reflexivity.
+Qed.
+
+(* ------------------------------------------------------------------ unknown property identifier *)
+Lemma v5_unknown_property f tbl acc id r :
+  tbl id = None -> parse_props (S f) tbl acc (id :: r) = Err DE_MalformedPacket.
+Proof. intros H. cbn [parse_props]. rewrite H. reflexivity. Qed.
+
+Lemma v5_unknown_property_props tbl pre bag id r :
+  props_of tbl pre = Ok bag -> tbl id = None -> props_of tbl (pre ++ id :: r) = Err DE_MalformedPacket.
+Proof. intros Hp H. rewrite (props_of_app _ _ _ _ Hp). cbn [length]. now apply v5_unknown_property. Qed.
+
+Lemma tbl_ack_none id : tbl_ack id = None <-> id <> P_REASON_STRING /\ id <> P_USER.
+Proof.
+  unfold tbl_ack, tbl_of, P_REASON_STRING, P_USER. cbn [find fst snd].
+  destruct (31 =? id) eqn:E1; [split; [discriminate|lia]|].
+  destruct (38 =? id) eqn:E2; [split; [discriminate|lia]|]. split; [lia|reflexivity].
+Qed.
+
+(* closed corollary: a PUBACK/PUBREC body whose first property identifier is not one of the two
+   PUBACK knows is refused, whatever the rest *)
+Lemma v5_unknown_property_puback i1 i2 rc plen id r :
+  tbl_ack id = None -> 0 < plen < 128 ->
+  exists e, publish_ack_decode (i1 :: i2 :: rc :: plen :: id :: r) = Err e.
+Proof.
+  intros Ht Hp. unfold publish_ack_decode, dec_nz16. cbn [dec_u16 bind].
+  destruct (i1 * 256 + i2 =? 0); [eauto|].
+  destruct (publish_ack_reason_ok rc); cbn [ensure bind]; [|eauto].
+  unfold ack_props_decode, take_properties, dec_vi. cbn [dec_vi_go].
+  replace (plen <? 128) with true by lia. cbn [bind].
+  destruct (len (id :: r) <? 0 + plen mod 128 * 1); [eauto|]. unfold split_to.
+  replace (N.to_nat (0 + plen mod 128 * 1)) with (S (N.to_nat (plen - 1))) by lia.
+  cbn [firstn bind]. unfold props_of. cbn [length]. Show. rewrite (v5_unknown_property _ _ _ _ _ Ht).
+  cbn [bind]. eauto.
+Qed.
+
+Lemma v5_unknown_property_puback_stream mi mc npi rl src i1 i2 rc plen id r :
+  rl <= len src -> firstn (N.to_nat rl) src = i1 :: i2 :: rc :: plen :: id :: r ->
+  tbl_ack id = None -> 0 < plen < 128 ->
+  exists e, dr_res (decode_step mi mc npi (Frame PT_PUBACK rl) src) = Err e.
+Proof.
+  intros Hl Hf Ht Hp. destruct (v5_unknown_property_puback i1 i2 rc plen id r Ht Hp) as [e E].
+  exists e. apply step_frame_err; [exact Hl|]. rewrite Hf. unfold decode_packet.
+  change (PT_PUBACK =? PT_PUBACK) with true. cbv iota. rewrite E. reflexivity.
+Qed.
+
+(* ------------------------------------------------------------------ a once-only property twice *)
+Lemma v5_dup_once_only f tbl acc id k r :
+  tbl id = Some (k, true) -> bag_has id acc = true ->
+  parse_props (S f) tbl acc (id :: r) = Err DE_MalformedPacket.
+Proof. intros H B. cbn [parse_props]. rewrite H, B. reflexivity. Qed.
+
+Lemma v5_dup_once_only_props tbl pre bag id k r :
+  props_of tbl pre = Ok bag -> tbl id = Some (k, true) -> bag_has id bag = true ->
+  props_of tbl (pre ++ id :: r) = Err DE_MalformedPacket.
+Proof.
+  intros Hp H B. rewrite (props_of_app _ _ _ _ Hp). cbn [length].
+  eapply v5_dup_once_only; [exact H|]. now rewrite bag_has_rev.
+Qed.
+
+(* two items with the same once-only identifier, back to back, anything after *)
+Lemma v5_dup_once_only_pair tbl id k v1 pv v2 :
+  tbl id = Some (k, true) -> dec_pval k v1 = Ok (pv, []) ->
+  props_of tbl (id :: v1 ++ id :: v2) = Err DE_MalformedPacket.
+Proof.
+  intros H E. change (id :: v1 ++ id :: v2) with ((id :: v1) ++ id :: v2).
+  apply (v5_dup_once_only_props tbl (id :: v1) [(id, pv)] id k v2); [|exact H|].
+  - unfold props_of. cbn [length parse_props]. rewrite H. cbn [bag_has existsb andb negb ensure bind].
+    rewrite E. cbn [bind]. destruct (length v1); reflexivity.
+  - unfold bag_has. cbn [existsb fst]. rewrite N.eqb_refl. reflexivity.
+Qed.
+
+(* ------------------------------------------------------------------ unknown reason code *)
+Lemma v5_unknown_reason_code src id rc r :
+  publish_ack_reason_ok rc = false -> dec_nz16 src = Ok (id, rc :: r) ->
+  publish_ack_decode src = Err DE_MalformedPacket.
+Proof. intros H E. unfold publish_ack_decode. rewrite E. cbn [bind]. rewrite H. reflexivity. Qed.
+
+Lemma v5_unknown_reason_code_ack2 src id rc r :
+  publish_ack2_reason_ok rc = false -> dec_nz16 src = Ok (id, rc :: r) ->
+  publish_ack2_decode src = Err DE_MalformedPacket.
+Proof. intros H E. unfold publish_ack2_decode. rewrite E. cbn [bind]. rewrite H. reflexivity. Qed.
+
+Lemma v5_unknown_reason_code_disconnect rc r :
+  disconnect_reason_ok rc = false -> disconnect_decode (rc :: r) = Err DE_MalformedPacket.
+Proof. intros H. unfold disconnect_decode. rewrite H. reflexivity. Qed.
+
+Lemma v5_unknown_reason_code_auth rc r :
+  auth_reason_ok rc = false -> auth_decode (rc :: r) = Err DE_MalformedPacket.
+Proof. intros H. unfold auth_decode. rewrite H. reflexivity. Qed.
+
+Lemma v5_unknown_reason_code_connack flags rc r :
+  flags <= 1 -> connect_ack_reason_ok rc = false ->
+  connect_ack_decode (flags :: rc :: r) = Err DE_MalformedPacket.
+Proof.
+  intros Hf H. unfold connect_ack_decode. replace (flags <=? 1) with true by lia.
+  cbn [ensure bind]. rewrite H. reflexivity.
+Qed.
+Lemma v5_unknown_reason_code_connack' flags rc r :
+  connect_ack_reason_ok rc = false -> exists e, connect_ack_decode (flags :: rc :: r) = Err e.
+Proof.
+  intros H. unfold connect_ack_decode. destruct (flags <=? 1); cbn [ensure bind]; [|eauto].
+  rewrite H. eauto.
+Qed.
+
+Lemma status_decode_bad ok s c : In c s -> ok c = false -> status_decode ok s = Err DE_MalformedPacket.
+Proof.
+  induction s as [|d s IH]; [intros []|]. intros [->|Hi] Hc; cbn [status_decode].
+  - rewrite Hc. reflexivity.
+  - destruct (ok d); cbn [ensure bind]; [|reflexivity]. rewrite (IH Hi Hc). reflexivity.
+Qed.
+
+Lemma v5_unknown_reason_code_suback src id r pr r1 c :
+  dec_nz16 src = Ok (id, r) -> ack_props_decode r = Ok (pr, r1) -> In c r1 ->
+  subscribe_ack_reason_ok c = false -> subscribe_ack_decode src = Err DE_MalformedPacket.
+Proof.
+  intros E1 E2 Hi Hc. unfold subscribe_ack_decode. rewrite E1. cbn [bind]. rewrite E2. cbn [bind].
+  rewrite (status_decode_bad _ _ _ Hi Hc). reflexivity.
+Qed.
+
+Lemma v5_unknown_reason_code_unsuback src id r pr r1 c :
+  dec_nz16 src = Ok (id, r) -> ack_props_decode r = Ok (pr, r1) -> In c r1 ->
+  unsubscribe_ack_reason_ok c = false -> unsubscribe_ack_decode src = Err DE_MalformedPacket.
+Proof.
+  intros E1 E2 Hi Hc. unfold unsubscribe_ack_decode. rewrite E1. cbn [bind]. rewrite E2. cbn [bind].
+  rewrite (status_decode_bad _ _ _ Hi Hc). reflexivity.
+Qed.
+
+(* lifted: a PUBACK frame with packet id <> 0 and a reason code PUBACK does not know *)
+Lemma v5_unknown_reason_code_stream mi mc npi rl src i1 i2 rc r :
+  rl <= len src -> firstn (N.to_nat rl) src = i1 :: i2 :: rc :: r ->
+  i1 * 256 + i2 <> 0 -> publish_ack_reason_ok rc = false ->
+  dr_res (decode_step mi mc npi (Frame PT_PUBACK rl) src) = Err DE_MalformedPacket.
+Proof.
+  intros Hl Hf Hid Hrc. apply step_frame_err; [exact Hl|]. rewrite Hf. unfold decode_packet.
+  change (PT_PUBACK =? PT_PUBACK) with true. cbv iota.
+  rewrite (v5_unknown_reason_code _ (i1 * 256 + i2) rc r Hrc); [reflexivity|].
+  unfold dec_nz16. cbn [dec_u16 bind]. replace (i1 * 256 + i2 =? 0) with false by lia. reflexivity.
+Qed.
+
+(* ------------------------------------------------------------------ packet id 0 *)
+Lemma dec_nz16_zero r : dec_nz16 (0 :: 0 :: r) = Err DE_MalformedPacket.
+Proof. reflexivity. Qed.
+
+Definition pid_packets : list N :=
+  [PT_PUBACK; PT_PUBREC; PT_PUBREL; PT_PUBCOMP; PT_SUBSCRIBE; PT_SUBACK; PT_UNSUBSCRIBE; PT_UNSUBACK].
+
+Lemma v5_zero_packet_id fb r :
+  In fb pid_packets -> decode_packet fb (0 :: 0 :: r) = Err DE_MalformedPacket.
+Proof.
+  unfold pid_packets. cbn [In].
+  intros [<-|[<-|[<-|[<-|[<-|[<-|[<-|[<-|[]]]]]]]]]; reflexivity.
+Qed.
+
+Lemma v5_zero_packet_id_stream mi mc npi fb rl src r :
+  In fb pid_packets -> rl <= len src -> firstn (N.to_nat rl) src = 0 :: 0 :: r ->
+  dr_res (decode_step mi mc npi (Frame fb rl) src) = Err DE_MalformedPacket.
+Proof.
+  intros Hi Hl Hf. apply step_frame_err; [exact Hl|]. rewrite Hf. now apply v5_zero_packet_id.
+Qed.
+
+Lemma v5_zero_packet_id_publish src fb ps topic r :
+  dec_string src = Ok (topic, 0 :: 0 :: r) -> flags_qos fb = 1 \/ flags_qos fb = 2 ->
+  publish_decode src fb ps = Err DE_MalformedPacket.
+Proof.
+  intros E Hq. unfold publish_decode. rewrite E. cbn [bind].
+  destruct Hq as [-> | ->]; reflexivity.
+Qed.
+
+(* ------------------------------------------------------------------ QoS 3 *)
+Lemma v5_qos3 src fb rl :
+  flags_qos fb = 3 -> 2 <= rl -> (2 <= length src)%nat ->
+  packet_header_size src fb rl = Err DE_MalformedPacket.
+Proof.
+  intros Hq Hr Hl. unfold packet_header_size. replace (2 <=? rl) with true by lia.
+  destruct src as [|b0 [|b1 s]]; cbn [length] in Hl; try lia.
+  cbn [ensure bind]. rewrite Hq. reflexivity.
+Qed.
+
+Lemma v5_qos3_stream mi mc npi src fb rl :
+  flags_qos fb = 3 -> 2 <= rl -> (2 <= length src)%nat ->
+  decode_step mi mc npi (PublishHeader fb rl) src = (Err DE_MalformedPacket, PublishHeader fb rl, npi, src).
+Proof.
+  intros Hq Hr Hl. cbn [decode_step]. rewrite step_publish_header_eq.
+  rewrite (v5_qos3 src fb rl Hq Hr Hl). reflexivity.
+Qed.
+
+(* from the very first byte: 0x36 / 0x37 / 0x3E / 0x3F *)
+Lemma v5_qos3_header mi mc npi fb rl vi rest :
+  is_publish fb = true -> flags_qos fb = 3 -> enc_vi rl = Some vi -> (mi = 0 \/ rl <= mi) ->
+  2 <= rl -> (2 <= length rest)%nat ->
+  dr_res (decode_step mi mc npi FrameHeader (fb :: vi ++ rest)) = Err DE_MalformedPacket.
+Proof.
+  intros Hp Hq He Hm Hr Hl. cbn [decode_step]. rewrite (step_frame_header_enc _ _ _ _ _ _ _ He).
+  replace (negb (mi =? 0) && (mi <? rl)) with false by lia. rewrite Hp.
+  rewrite step_publish_header_eq, (v5_qos3 rest fb rl Hq Hr Hl). reflexivity.
+Qed.
+
+(* ------------------------------------------------------------------ ill-formed UTF-8 *)
+Lemma v5_bad_utf8 s b r :
+  dec_bytes s = Ok (b, r) -> utf8_valid b = false -> dec_string s = Err DE_Utf8Error.
+Proof. intros E H. unfold dec_string. rewrite E. cbn [bind]. rewrite H. reflexivity. Qed.
+
+Lemma v5_bad_utf8_pval s b r :
+  dec_bytes s = Ok (b, r) -> utf8_valid b = false -> dec_pval KStr s = Err DE_Utf8Error.
+Proof. intros E H. cbn [dec_pval]. rewrite (v5_bad_utf8 _ _ _ E H). reflexivity. Qed.
+
+Lemma v5_bad_utf8_pair_key s b r :
+  dec_bytes s = Ok (b, r) -> utf8_valid b = false -> dec_pval KPair s = Err DE_Utf8Error.
+Proof.
+  intros E H. cbn [dec_pval]. unfold dec_uprop. rewrite (v5_bad_utf8 _ _ _ E H). reflexivity.
+Qed.
+
+Lemma v5_bad_utf8_topic s b r fb ps :
+  dec_bytes s = Ok (b, r) -> utf8_valid b = false -> publish_decode s fb ps = Err DE_Utf8Error.
+Proof. intros E H. unfold publish_decode. rewrite (v5_bad_utf8 _ _ _ E H). reflexivity. Qed.
+
+(* in a property block: a string-valued property with ill-formed bytes *)
+Lemma v5_bad_utf8_props tbl pre bag id once s b r :
+  props_of tbl pre = Ok bag -> tbl id = Some (KStr, once) -> bag_has id bag = false ->
+  dec_bytes s = Ok (b, r) -> utf8_valid b = false ->
+  props_of tbl (pre ++ id :: s) = Err DE_Utf8Error.
+Proof.
+  intros Hp Ht Hb E H. rewrite (props_of_app _ _ _ _ Hp). cbn [length parse_props]. rewrite Ht.
+  rewrite bag_has_rev, Hb, andb_false_r. cbn [negb ensure bind].
+  rewrite (v5_bad_utf8_pval _ _ _ E H). reflexivity.
+Qed.
+
+(* ------------------------------------------------------------------ inner length beyond what is left *)
+Lemma v5_inner_len_exceeds_rl s n r :
+  dec_vi s = Ok (n, r) -> len r < n -> take_properties s = Err DE_InvalidLength.
+Proof.
+  intros E H. unfold take_properties. rewrite E. cbn [bind]. replace (len r <? n) with true by lia.
+  reflexivity.
+Qed.
+
+Lemma v5_inner_len_exceeds_rl_bytes s n r :
+  dec_u16 s = Ok (n, r) -> len r < n -> dec_bytes s = Err DE_InvalidLength.
+Proof.
+  intros E H. unfold dec_bytes. rewrite E. cbn [bind]. replace (len r <? n) with true by lia.
+  reflexivity.
+Qed.
+
+Lemma v5_inner_len_exceeds_rl_string s n r :
+  dec_u16 s = Ok (n, r) -> len r < n -> dec_string s = Err DE_InvalidLength.
+Proof. intros E H. unfold dec_string. rewrite (v5_inner_len_exceeds_rl_bytes _ _ _ E H). reflexivity. Qed.
+
+Lemma v5_inner_len_exceeds_rl_puback i1 i2 rc r1 n r2 :
+  i1 * 256 + i2 <> 0 -> publish_ack_reason_ok rc = true ->
+  dec_vi r1 = Ok (n, r2) -> len r2 < n ->
+  publish_ack_decode (i1 :: i2 :: rc :: r1) = Err DE_InvalidLength.
+Proof.
+  intros Hid Hrc E H. unfold publish_ack_decode, dec_nz16. cbn [dec_u16 bind].
+  replace (i1 * 256 + i2 =? 0) with false by lia. rewrite Hrc. cbn [ensure bind].
+  destruct r1 as [|x r1]; [discriminate|].
+  unfold ack_props_decode. rewrite (v5_inner_len_exceeds_rl _ _ _ E H). reflexivity.
+Qed.
+
+Lemma v5_inner_len_exceeds_rl_frame mi mc npi rl src i1 i2 rc r1 n r2 :
+  rl <= len src -> firstn (N.to_nat rl) src = i1 :: i2 :: rc :: r1 ->
+  i1 * 256 + i2 <> 0 -> publish_ack_reason_ok rc = true ->
+  dec_vi r1 = Ok (n, r2) -> len r2 < n ->
+  dr_res (decode_step mi mc npi (Frame PT_PUBACK rl) src) = Err DE_InvalidLength.
+Proof.
+  intros Hl Hf Hid Hrc E H. apply step_frame_err; [exact Hl|]. rewrite Hf. unfold decode_packet.
+  change (PT_PUBACK =? PT_PUBACK) with true. cbv iota.
+  rewrite (v5_inner_len_exceeds_rl_puback _ _ _ _ _ _ Hid Hrc E H). reflexivity.
+Qed.
+
+(* PUBLISH: a topic length running past the remaining length is caught in the header computation *)
+Lemma v5_inner_len_exceeds_rl_publish src fb rl b0 b1 s :
+  src = b0 :: b1 :: s -> 2 <= rl -> qos_ok (flags_qos fb) = true -> rl <= b0 * 256 + b1 + 2 ->
+  packet_header_size src fb rl = Err DE_InvalidLength.
+Proof.
+  intros -> Hr Hq H. unfold packet_header_size. replace (2 <=? rl) with true by lia.
+  cbn [ensure bind]. rewrite Hq. cbn [ensure bind].
+  match goal with |- context [ensure (?a <? rl)] => replace (a <? rl) with false end; [reflexivity|].
+  destruct (flags_qos fb =? 0); lia.
+Qed.
